@@ -225,7 +225,7 @@ Lemma tv_restart s k s' : restart s k = Done s' -> tv s' = tv s.
 Proof.
   unfold restart. intros H. cbv zeta in H.
   destruct (negb _) in H; [discriminate|].
-  destruct (log_lastindex _ <? st_snapidx _) in H; go; reflexivity.
+  destruct ((log_lastindex _ <? st_snapidx _) || _) in H; go; reflexivity.
 Qed.
 
 Lemma set_voted_for_role s t c s' : set_voted_for s t c = Done s' -> st_role s' = st_role s.
